@@ -953,11 +953,19 @@ def c16_unsolved(n, seed, procs):
         if it % 5 == 0:
             pep2 = PEP(); f2 = pep2.declare_function(PF.SmoothConvexFunction, L=1.); xs2 = f2.stationary_point(); y0 = pep2.set_initial_point()
             pep2.set_initial_condition((y0 - xs2) ** 2 <= 1); pep2.set_performance_metric(f2(y0 - f2.gradient(y0)) - f2(xs2))
-            for kw in (dict(return_primal_or_dual="both"), dict(dimension_reduction_heuristic="nuclear"), dict(dimension_reduction_heuristic="logdetx")):
+            for kw in (dict(return_primal_or_dual="both"), dict(return_primal_or_dual="prim"), dict(return_primal_or_dual="du"), dict(return_primal_or_dual=""), dict(return_primal_or_dual="Dual"),
+                       dict(dimension_reduction_heuristic="nuclear"), dict(dimension_reduction_heuristic="logdetx"), dict(dimension_reduction_heuristic="logdet"), dict(dimension_reduction_heuristic="Trace")):
                 try:
                     r = quiet_solve(pep2, **kw)
                     fails.append(dict(what="invalid option %r accepted (returned %r)" % (kw, r), oracle="c16_unsolved", input=dict(option=kw), tags=["c16"]))
                 except (ValueError, AssertionError, TypeError): pass
+            for bad_solver in ("CLARABELL", "", "scs ", 42):
+                # a solver name cvxpy does not know must be rejected (cvxpy raises), never silently replaced
+                try:
+                    with contextlib.redirect_stdout(io.StringIO()):
+                        r = pep2.solve(verbose=0, solver=bad_solver)
+                    fails.append(dict(what="invalid solver name %r accepted (returned %r)" % (bad_solver, r), oracle="c16_unsolved", input=dict(option=dict(solver=str(bad_solver))), tags=["c16"]))
+                except Exception: pass
         if it < 2: samples.append(desc)
         if len(fails) > 5: break
     return dict(evaluations=n, distinct=len(distinct), failures=fails[:5], samples=samples)
